@@ -98,6 +98,8 @@ inductive Op
   | into_iter (r : String) (it : String)
   | next (it : String) | next_back (it : String)
   | nth (it : String) (k : Nat) | nth_back (it : String) (k : Nat) | count (it : String)
+  | views (r : String) | iter_views (it : String)
+  | clone_from_iter (it src : String)
   | size_hint (it : String) | len (it : String) | as_slice (it : String)
   | clone_iter (it itnew : String)
   | serialize (r : String)
@@ -471,7 +473,14 @@ def step (w : World) : Op → World × Out
         | .ok (o, i') => ((w'.set it (.intoIter v' i)).set itnew (.intoIter o i'), .ok)
         | .error p => (w'.set it (.intoIter v' i), .stopped p))
      | _ => (w, .badOp))
-  | .nth .. | .nth_back .. | .count .. => (w, .badOp)   -- handled by `stepAll`
+  | .nth .. | .nth_back .. | .count .. | .clone_from_iter .. => (w, .badOp)   -- handled by `stepAll`
+  -- every borrowed view of the vector (`Deref`, `AsRef`, `Borrow`, `Index`, `as_slice`, `&v` / `&mut v` iteration, `Cow`)
+  -- is the slice `[as_ptr(), len())`: the harness compares them; the model has nothing to do
+  | .views r => w.onVecReg r (pure .ok)
+  | .iter_views it =>
+    (match w.get it with
+     | some (.intoIter ..) => (w, .ok)
+     | _ => (w, .badOp))
 
 /-- destroy a value inside the operation (a callback) -/
 def dropIn (w : World) (e : Elem) : World × Option Panic :=
@@ -513,6 +522,27 @@ def countLoop (it : String) : Nat → Nat → World → World × Out
     | (w', .stopped p) => unwind w' p
     | r => r
 
+/-- a register name no case can use -/
+def tmpReg : String := "\u0001tmp"
+
+def World.unset (w : World) (r : String) : World := { w with regs := w.regs.filter (fun p => p.1 != r) }
+
+/-- the provided `Clone::clone_from` on an `IntoIter`: `*self = source.clone()` — the clone is made first (if that
+    unwinds, `self` is untouched), then the old value is dropped and the new one stored (also when that drop unwinds) -/
+def cloneFromIter (w : World) (it src : String) : World × Out :=
+  if it == src then (w, .badOp) else
+  match w.get it, w.get src with
+  | some (.intoIter ..), some (.intoIter ..) =>
+    (match step X w (.clone_iter src tmpReg) with
+     | (w1, .ok) =>
+       let (w2, o2) := step X w1 (.drop it)
+       let w3 := (match w2.get tmpReg with
+         | some o => w2.set it o
+         | none => w2)
+       (w3.unset tmpReg, o2)
+     | (w1, o) => (w1.unset tmpReg, o))
+  | _, _ => (w, .badOp)
+
 /-- `step` plus the provided iterator methods, which are defined from `next` / `next_back` / `drop` -/
 def stepAll (w : World) : Op → World × Out
   | .nth it k => if k > 64 then (w, .badOp) else nthLoop X (.next it) k w
@@ -525,6 +555,7 @@ def stepAll (w : World) : Op → World × Out
     (match step X w (.size_hint it) with
      | (_, .hint _ (some hi)) => countLoop X it (hi + 2) 0 w
      | _ => (w, .badOp))
+  | .clone_from_iter it src => cloneFromIter X w it src
   | op => step X w op
 
 end
